@@ -174,8 +174,16 @@ EXTRA_NATIVES = [
 
 
 def stack_advance(interp, args):
+    """Stack::advance_clock: the row written for clk+1 becomes the current row"""
     s = pm.deref(args[0])
     s.advanced = True
+    if not getattr(s, "multi_step", False):
+        return UNIT
+    if any(x is None for x in s.next):
+        raise mp.Unsupported("advance_clock with unwritten stack positions")
+    s.history.append(list(s.top))
+    s.top = list(s.next)
+    s.next = [None] * 16
     return UNIT
 
 
